@@ -194,6 +194,9 @@ func (m *Model) Apply(op Op) string {
 		return "ok"
 	case "save":
 		return "ok"
+	case "gc":
+		m.GC()
+		return "ok"
 	}
 	panic("model: unknown op " + op.Kind)
 }
